@@ -98,6 +98,7 @@ func (self *Transformer) Transform(tree ast.AnalyzedProgram) ast.AnalyzedProgram
 			VarType:                    glob.VarType,
 			NeedsRuntimeTypeValidation: glob.NeedsRuntimeTypeValidation,
 			OptType:                    glob.OptType,
+			IsPub:                      glob.IsPub,
 			Range:                      glob.Range,
 		}
 
